@@ -109,7 +109,8 @@ def scenarios_for(prop, tier, rng):
         sc = agentgen.shape_scenarios(cases, prop)
         hc, r2 = tlc_cases("shapehist", 1 if thorough else 0, f"{prop}-gen-hist"); gens.append(r2)
         sh = agentgen.shapehist_scenarios(hc, 49, prop)
-        return sc + sh, gens, {"statement_shapes": len(cases), "statement_shape_histories": len(hc),
+        dn = agentgen.dupname_scenarios(prop)
+        return sc + sh + dn, gens, {"statement_shapes": len(cases), "statement_shape_histories": len(hc), "configurations_with_a_name_used_twice": len(dn),
                                "routers_with_shape_histories(one process per run + one daemon process)": len(sh)}
     raise ToolError("no scenarios for " + prop)
 
